@@ -9,7 +9,7 @@ import (
 )
 
 func init() {
-	register(&PropDef{ID: "C06", Level: "fault_enumeration", Gen: genC06, Check: checkC06, Valid: validC06})
+	register(&PropDef{ID: "C06", Stalls: true, Level: "fault_enumeration", Gen: genC06, Check: checkC06, Valid: validC06})
 }
 
 func genC06(r *Rnd, t Tier) *Case {
